@@ -45,6 +45,17 @@ func (a *Allocator) toIndex(base net.IP) (uint, error) {
 	return uint(value), nil
 }
 
+// contains reports whether ip is a 16-byte address inside the pool.
+// net.IPNet.Contains compares IPv4-mapped addresses in their 4-byte form: it
+// answers no for the blocks of a pool such as ::fffe:0:0/95 that lie in
+// ::ffff:0:0/96, although the 128-bit arithmetic used here hands them out.
+func (a *Allocator) contains(ip net.IP) bool {
+	if len(ip) != net.IPv6len || len(a.containing.Mask) != net.IPv6len {
+		return false
+	}
+	return ip.Mask(a.containing.Mask).Equal(a.containing.IP.Mask(a.containing.Mask))
+}
+
 func (a *Allocator) toPrefix(idx uint) (net.IP, error) {
 	return allocators.AddPrefixes(a.containing.IP, uint64(idx), uint64(a.page))
 }
@@ -63,7 +74,10 @@ func (a *Allocator) Allocate(hint net.IPNet) (ret net.IPNet, err error) {
 	// Try to allocate the requested prefix
 	a.l.Lock()
 	defer a.l.Unlock()
-	if hint.IP.To16() != nil && a.containing.Contains(hint.IP) {
+	// only a 16-byte address can name a block of an IPv6 pool (a 4-byte hint can
+	// still be "contained" in a pool written in IPv4-mapped space, and the offset
+	// arithmetic below is 128-bit)
+	if a.contains(hint.IP) {
 		idx, hintErr := a.toIndex(hint.IP)
 		if hintErr == nil && !a.bitmap.Test(idx) {
 			a.bitmap.Set(idx)
@@ -90,7 +104,7 @@ func (a *Allocator) Allocate(hint net.IPNet) (ret net.IPNet, err error) {
 
 // Free returns the given prefix to the available pool if it was taken.
 func (a *Allocator) Free(prefix net.IPNet) error {
-	if !a.containing.Contains(prefix.IP) {
+	if !a.contains(prefix.IP) {
 		// Offset() is an absolute distance: a prefix below the pool would
 		// otherwise alias the block at the same distance above its base
 		return fmt.Errorf("Could not find prefix in pool: %s is outside of %s", prefix.String(), a.containing.String())
